@@ -141,3 +141,17 @@ def write_ods(path, tree, charset="utf-8", content=None):
         z.writestr("META-INF/manifest.xml", '<?xml version="1.0" encoding="UTF-8"?><manifest:manifest xmlns:manifest="urn:oasis:names:tc:opendocument:xmlns:manifest:1.0">'
                    '<manifest:file-entry manifest:full-path="/" manifest:media-type="application/vnd.oasis.opendocument.spreadsheet"/>'
                    '<manifest:file-entry manifest:full-path="content.xml" manifest:media-type="text/xml"/></manifest:manifest>')
+
+
+def regroup(tree):
+    """the rows of every sheet wrapped into the row containers ODF knows (mirror of Lean's `regroupDoc` / `groupRows`)"""
+    for body in tree.children:
+        for spreadsheet in body.children:
+            for table in spreadsheet.children:
+                rows = table.children
+                if len(rows) >= 3:
+                    a, b, c, rest = rows[0], rows[1], rows[2], rows[3:]
+                    table.children = [Node("table:table-header-rows", children=[a]),
+                                      Node("table:table-row-group", children=[b, Node("table:table-row-group", children=[c])]),
+                                      Node("table:table-rows", children=rest)]
+    return tree
